@@ -85,6 +85,17 @@ def _generate_watched(mod, rng, tier, violations, prop, seed, cap=None):
             "seed": seed, "tier": tier, "case_index": len(out),
             "last_completed_case": out[-1].desc if out else None, "traceback_tail": tb})
         violations.append(("hang", path, ""))
+    except Exception as e:  # noqa: BLE001 - the generator drives the implementation through its public API
+        import traceback
+        tb = traceback.format_exc()[-2500:]
+        path = common.write_replay(prop, {
+            "property": prop,
+            "why": f"the implementation raised {type(e).__name__}: {e} while the harness was building case #{len(out)} "
+                   "(constructing documents, marks, slices or steps through the public API, which never raises on the "
+                   "unchanged tree); the run stops here - re-run with the same seed and tier to reproduce",
+            "seed": seed, "tier": tier, "case_index": len(out),
+            "last_completed_case": out[-1].desc if out else None, "traceback_tail": tb})
+        violations.append(("generator-exception", path, ""))
     finally:
         signal.alarm(0)
         signal.signal(signal.SIGALRM, old)
@@ -163,6 +174,14 @@ def run_property(modname: str, tier: str, seed: int, replay: str | None = None) 
     pf = set(res.prop_fail)
     for i in sorted(pf):
         handle_failure(cases[i], "property predicate false on the implementation's output")
+    # an exception outside the permitted classes escaped the implementation while the harness ran the case's operation, or
+    # a harness-side observation of the operation's result failed (the harness marks such cases in their description; no
+    # model evaluation is needed to judge them)
+    for i, c in enumerate(cases):
+        if i not in pf and isinstance(c.desc, dict) and c.desc.get("impl_failure"):
+            pf.add(i)
+            res.prop_fail.append(i)
+            handle_failure(c, "the implementation failed while the harness ran the operation: " + str(c.desc["impl_failure"])[:240])
     only_dis = [i for i in res.disagree if i not in pf]
 
     # ---- 3. failing-input search when model and implementation disagree but the predicate still holds
